@@ -34,7 +34,13 @@ fn outputs(c: &mut Case<'_>) -> CaseResult {
     let n_extra = c.t.len(3);
     for i in 0..n_extra {
         let v = c.t.string1(Alpha::Header, 12);
-        headers.insert(http::header::HeaderName::from_bytes(format!("x-verif-extra-{i}").as_bytes()).unwrap(), http::HeaderValue::from_str(&v).unwrap());
+        let name = http::header::HeaderName::from_bytes(format!("x-verif-extra-{i}").as_bytes()).unwrap();
+        headers.insert(name.clone(), http::HeaderValue::from_str(&v).unwrap());
+        // a header map may hold several values under one name (Link, Vary, Set-Cookie ...)
+        if c.t.chance(64) {
+            let v2 = c.t.string1(Alpha::Header, 8);
+            headers.append(name, http::HeaderValue::from_str(&v2).unwrap());
+        }
     }
     let keep_alive = op == "CompleteMultipartUpload";
     let status = if c.t.chance(48) && !keep_alive && c.allow("status-override-ignored") {
@@ -88,8 +94,8 @@ fn outputs(c: &mut Case<'_>) -> CaseResult {
     }
     // (c) extra headers: as headers, or as trailers for the keep-alive response
     for (k, v) in &headers {
-        let in_headers = wresp.headers.get(k) == Some(v);
-        let in_trailers = wresp.trailers.as_ref().is_some_and(|t| t.get(k) == Some(v));
+        let in_headers = wresp.headers.get_all(k).iter().any(|x| x == v);
+        let in_trailers = wresp.trailers.as_ref().is_some_and(|t| t.get_all(k).iter().any(|x| x == v));
         if !(in_headers || (keep_alive && in_trailers)) {
             return Err(c.fail(format!("extra-header-lost:{}", if keep_alive { "keep-alive" } else { "plain" }), format!("{op}: backend header {k}: {v:?} missing from the response (headers {:?}, trailers {:?})", wresp.headers, wresp.trailers)));
         }
